@@ -7,8 +7,9 @@ C06.b K9  angle law of exp_pauliword_to_gates: on each branch, angle - 2*coef is
 C06.c K9  exp_pauliword_to_gates folded for every Pauli word on two qubits and representative words on three (coefficient a
           symbol, positive and negative), without control, with one and with two controls: the product of the emitted gates
           (reference semantics of the documented gate set) equals exp(-i c P), respectively its controlled version, exactly
-C06.d K9  identity-term rule: no control -> phase *= exp(-i c); one control -> PHASE(-c) on it; several -> CPHASE(-2c).CRZ(2c) on
-          one target under the same controls, whose product on the target is exp(-i c) * identity
+C06.d K9  identity-term rule: no control -> phase *= exp(-i c); with controls the whole generator is folded (repository Gate constructor
+          included) for none / bare index / one-element list / two / three controls with and without qubit 0 among them: product of the
+          emitted gates = controlled exp(-i (c0 + c1 Z)), no control choice refused
 C06.e K9  Suzuki recursion folded with symbolic coefficients: order 1, order 2 = S1(t/2) S1_rev(t/2), order 4 =
           S2(p t)^2 S2((1-4p) t) S2(p t)^2 with p = 1/(4 - 4^(1/3))
 C06.f K8  trotterize: per-step time is time/n_steps in every (operator kind x time kind) branch, the circuit is repeated
@@ -51,6 +52,8 @@ def run(idx: Index, rep: Report, tier: str):
     check_angle_law(idx, rep)
     check_exponential_circuits(idx, rep, tier)
     check_identity_term(idx, rep)
+    from .C03 import check_single_reordering
+    check_single_reordering(idx, rep)            # fermionic input: the operator handed to each encoder (any spelling of the encoding name)
     check_suzuki(idx, rep)
     check_trotterize(idx, rep)
 
@@ -187,43 +190,7 @@ def check_identity_term(idx: Index, rep: Report):
             ok = False
     rep.decide(ok, rule, f, ph[0] if ph else outer, text="no control: phase *= exp(-i c)", what="an identity term contributes the global phase exp(-i c)",
                reason=f"phase update {norm(ph[0]) if ph else '?'}")
-    inner = outer.orelse[0] if outer.orelse and isinstance(outer.orelse[0], ast.If) else None
-    if inner is None:
-        raise AnalysisError("identity-term branch: control sub-branches not found")
-
-    def gates_of(stmts):
-        out = []
-        for s in stmts:
-            for n in ast.walk(s):
-                if isinstance(n, ast.Call) and norm(n.func) == "Gate":
-                    kws = {k.arg: k.value for k in n.keywords}
-                    out.append((n.args[0].value if n.args and isinstance(n.args[0], ast.Constant) else None, kws, n))
-        return out
-    one = gates_of(inner.body)
-    ok = len(one) == 1 and one[0][0] == "PHASE" and norm(one[0][1].get("target")) == "control"
-    if ok:
-        try:
-            ok = symx.equal(symx.to_sympy(one[0][1]["parameter"], env, on_unknown=unk), -c)
-        except symx.Untranslatable:
-            ok = False
-    rep.decide(ok, rule, f, inner, text="one control: PHASE(-c) on the control", what="controlled on one qubit, the identity term is the phase gate diag(1, exp(-i c)) on that qubit",
-               reason=f"gates {[(g[0], {k: norm(v) for k, v in g[1].items()}) for g in one]}")
-    many = gates_of(inner.orelse)
-    ok = len(many) == 2 and {many[0][0], many[1][0]} == {"CPHASE", "CRZ"} and all(norm(g[1].get("control")) == "control" for g in many) and \
-        norm(many[0][1].get("target")) == norm(many[1][1].get("target"))
-    if ok:
-        try:
-            par = {g[0]: symx.to_sympy(g[1]["parameter"], env, on_unknown=unk) for g in many}
-            prod = sp.simplify(symx.PHASE(par["CPHASE"]) * symx.RZ(par["CRZ"]))
-            ok = symx.matrix_equal(prod, sp.exp(-sp.I * c) * sp.eye(2))
-        except symx.Untranslatable:
-            ok = False
-    rep.decide(ok, rule, f, inner, text="several controls: CPHASE(-2c) . CRZ(2c) = exp(-i c) 1 on the target",
-               what="under several controls the pair CPHASE, CRZ on one target multiplies to exp(-i c) times the identity",
-               reason=f"gates {[(g[0], {k: norm(v) for k, v in g[1].items()}) for g in many]}")
-    # test of "one control": int or a list of length one
-    ok = norm(inner.test) in ("isinstance(control, int) or len(control) == 1", "len(control) == 1 or isinstance(control, int)")
-    rep.decide(ok, rule, f, inner, text=f"single-control test: {norm(inner.test)}", what="a bare integer or a one-element list is one control", reason=f"test is {norm(inner.test)}")
+    check_operator_circuit(idx, rep)
     # a non-identity term is skipped only when its coefficient is (numerically) zero: multiples of pi are NOT skippable, exp(-i k pi P) = (-1)^k
     guards = [n for n in ast.walk(top[0]) if isinstance(n, ast.If) and any("exp_pauliword_to_gates" in norm(x) for x in n.body) and "coef" in norm(n.test)]
     if guards:
@@ -247,6 +214,65 @@ def check_identity_term(idx: Index, rep: Report):
         {k.arg: norm(k.value) for k in calls[0].keywords} == {"variational": "variational", "control": "control"}
     rep.decide(ok, rule, f, calls[0] if calls else top[0], text="non-identity terms: exp_pauliword_to_gates(word, Re coef, variational, control)",
                what="every non-identity term is exponentiated with its own coefficient under the requested control", reason=f"call {norm(calls[0]) if calls else '?'}")
+
+
+class _OpCirc:
+    _sa_model = True
+
+    def __init__(self, gates=None, **_kw):
+        self._gates = list(gates or [])
+
+
+def check_operator_circuit(idx: Index, rep: Report):
+    """the whole generator folded (with the repository's own Gate constructor, so that its refusals are part of the fold) for an operator with an
+    identity term and a Z term that commute, every shape of control - none, a bare index, a one-element list, two and three controls, qubit 0
+    among the controls or not -: the product of the emitted gates is exp(-i (c0 + c1 Z)) when all controls are 1 and the identity otherwise"""
+    import math
+    import numpy as np
+    from ..rules import numsem
+    rule = "K9.identity-term"
+    f = idx.function(f"{AU}::get_exponentiated_qubit_operator_circuit")
+    c0, c1 = 0.3, 0.2
+    n = 0
+    for zq, ctl in ((1, None), (1, 0), (1, [0]), (0, 2), (1, 3), (1, [0, 2]), (0, [1, 2]), (1, [2, 3]), (2, [3, 0, 1]), (0, [3, 1, 2])):
+        for variational in (False, True):
+            fo = cs.make_folder(idx, AU, ctors={"Gate": None, "Circuit": lambda a, k: _OpCirc(*a, **k)})
+            fo.env["np.pi"] = math.pi
+            op = Rec("QubitOperator", {"terms": {(): c0, ((zq, "Z"),): c1}})
+            label = f"exp(-i (c0 + c1 Z{zq})), control={ctl}, variational={variational}"
+            try:
+                circ, phase = fo.run_function(f.node, {"qubit_op": op, "time": 1., "variational": variational, "trotter_order": 1, "control": ctl,
+                                                       "return_phase": True, "pauli_order": None})
+            except Raised as e:
+                rep.violation(rule, f, f.node, text=label, what="an operator with an identity term is exponentiated under every choice of control qubits",
+                              reason=f"the generator refuses this control choice ({e})")
+                n += 1
+                continue
+            except Undecidable as e:
+                raise AnalysisError(f"get_exponentiated_qubit_operator_circuit not foldable for control={ctl}: {e}")
+            cl = [] if ctl is None else ([ctl] if isinstance(ctl, int) else list(ctl))
+            used = {q for g in circ._gates for q in list(g.fields["target"]) + list(g.fields["control"] or [])}
+            allowed = set(cl) | {zq}
+            ntot = max(allowed | used) + 1
+            u = numsem.circuit_unitary(circ._gates, ntot) * complex(phase)
+            z = np.diag([math.e ** (-1j * (c0 + c1 * (1 - 2 * ((s_ >> (ntot - 1 - zq)) & 1)))) for s_ in range(2 ** ntot)])
+            want = np.eye(2 ** ntot, dtype=complex)
+            for s_ in range(2 ** ntot):
+                if all((s_ >> (ntot - 1 - q)) & 1 for q in cl):
+                    want[s_, s_] = z[s_, s_]
+            d = float(np.max(np.abs(u - want)))
+            n += 1
+            rep.decide(d < 1e-9, rule, f, f.node, text=label + f": {len(circ._gates)} gates on qubits {sorted(used)}",
+                       what="the emitted gates (times the returned phase) multiply to exp(-i (c0 + c1 Z)) when every control is 1 and to the identity otherwise",
+                       reason=f"deviation {d:.3g} from the controlled exponential")
+            if not used <= allowed:
+                rep.info(rule, f, f.node, text=label + " : bystander qubits", what="only operator and control qubits need to be touched",
+                         reason=f"gates also act (as the identity) on {sorted(used - allowed)}")
+            if ctl is not None:
+                flags = sorted(g.fields["name"] for g in circ._gates if g.fields["is_variational"])
+                rep.decide(bool(flags) == variational, rule, f, f.node, text=label + " : variational flags", what="gates are variational exactly when requested",
+                           reason=f"variational gates {flags}")
+    rep.floor("operator circuits folded (identity term, control shapes)", n, 20)
 
 
 def check_suzuki(idx: Index, rep: Report):
